@@ -187,6 +187,21 @@ packet FooTest { u16 b, }
 packet Bar { u8 c, }
 packet BarTest { u32 d, }
 """,
+    # a key field of the basic type char with one-character string keys, next to an integer-keyed match field
+    "charkey": opts() + """root packet Frame {
+    char Side,
+    u8 Kind,
+    match Side as Body {
+        "B" : Buy,
+        "S" : Sell,
+    },
+    match Kind as Tail {
+        1 : Buy,
+    },
+}
+packet Buy { u32 qty, }
+packet Sell { u32 qty, char flag, }
+""",
     # no padding cells beyond the default; little-endian; lenof + checksum
     "lencheck": opts("    LittleEndian = true;\n") + """root packet R {
     u16 T,
